@@ -51,6 +51,18 @@ Theorem io_rx_only_source :
 Proof. exact (fun Addr P same => @rx_only_source Addr P same). Qed.
 Print Assumptions io_rx_only_source.
 
+(* RX + C06.  The state a session is left in by a batch = its packetInput folded over what the loop
+   hands on.  Inserting - anywhere in any batch, from any address - a datagram on which
+   packetInput is the identity (by c06_session_noop: every datagram failing the integrity check
+   or too short to carry one) leaves exactly the state of the batch without it. *)
+Theorem io_rx_noop_insert :
+  forall (Addr P S : Type) (same : Addr -> Addr -> bool) (input : S -> P -> S)
+         (a : Addr) (st : S) (xs : list (@rmsg Addr P)) m ys,
+    (forall st', input st' (m_pl m) = st') ->
+    rx_state same input a st (xs ++ m :: ys) = rx_state same input a st (xs ++ ys).
+Proof. exact (fun Addr P S same input => @rx_noop_insert Addr P same S input). Qed.
+Print Assumptions io_rx_noop_insert.
+
 (* non-vacuity: a queue of 5, the kernel accepts 2, 1, 2; and 2 then an error *)
 Example io_tx_example :
   valid [ROk 2; ROk 1; ROk 2] 5 = true /\
